@@ -119,7 +119,7 @@ prop("C15",
 
 
 prop("C05",
-     ["C05_guard_ops_refine_map", "C05_guard_ops_enabled", "C05_lock_free_key", "C05_variants_interchangeable", "C05_try_fails_when_locked", "C05_drop_sole_guard", "C05_lock_drop_absent_restores", "C05_call_refines", "C05_history_refines", "C05_history_deterministic", "C05_witness", "C05_history_witness", "C05_call_refines_inside_callbacks", "C05_limited_call_refines", "C05_callback_failure_refines", "C05_callback_success_refines", "C05_limit_witness"],
+     ["C05_guard_ops_refine_map", "C05_guard_ops_enabled", "C05_lock_free_key", "C05_variants_interchangeable", "C05_try_fails_when_locked", "C05_drop_sole_guard", "C05_lock_drop_absent_restores", "C05_call_refines", "C05_history_refines", "C05_history_deterministic", "C05_witness", "C05_history_witness", "C05_call_refines_inside_callbacks", "C05_limited_call_refines", "C05_callback_failure_refines", "C05_callback_success_refines", "C05_limit_witness", "C05_every_interleaving_refines", "C05_concurrent_histories_linearise", "C05_try_fails_only_if_locked_or_awaited", "C05_try_succeeds_when_free", "C05_linearisation_witness"],
      ["C02.", "C04.", "C12.", "C05."],
      [fam("seq","H",3000), fam("seq","L",3000), fam("nocancel","H",1500), fam("nocancel","L",1500), fam("scale","L",2,"monitor")],
      [fam("seq","H",100000), fam("seq","L",100000), fam("nocancel","H",40000), fam("nocancel","L",40000), fam("mix","H",20000)],
@@ -135,7 +135,7 @@ TEXT = {
  "C04": "Theorem: in every reachable model state the key set equals valued keys + keys with a live guard + keys some in-flight call holds a handle on; quiescent => exactly the valued keys; count/keys report that set. Co-simulation compares the key set and replica counts after every atomic segment; monitor recomputes the expected set from the harness' own bookkeeping.",
  "C12": "Theorem: in a reachable quiescent state into_entries_unordered is enabled, does not panic and returns exactly one pair per valued key with the stored value; co-simulation + multiset monitor on runs that end with consume.",
  "C03": "PARTIAL (protocol level). Theorems: no library-made deadlock as a reachability statement (C03_no_library_deadlock: from every reachable state a run to the state of rest exists that starts and cancels no lock call, so every waiter obtains its key once the guards in front of it are dropped; C03_draining_always_terminates: every run of that draining client is finite under every schedule, and it ends at rest); every in-flight call that is not waiting for a per-key mutex is enabled in every reachable state; free/absent keys are acquired without waiting; a free mutex has no waiters; release hands the key to the oldest waiter; a handed waiter can run; waiters are never detached; if nobody can move, every waiter waits for a client-owned guard. Co-simulation compares the implementation's set of blocked agents with the model's after every segment (lost wake-ups show as a mismatch); watchdog/self-deadlock detection in the harness. Not shown: that the runtime delivers wake-ups in finite time.",
- "C05": "Theorems: every guard operation returns and stores what the plain map would and touches nothing else; a lock call of any shape run to completion on a free key returns a guard with the map's value and a state that does not depend on the shape (variants interchangeable); a try on a locked/reserved key returns None and changes nothing a map + locked set can see; with soft limits (SeqLimit.v) a limited acquisition either suspends in its callback offering exactly what the map + locked set allows (offer_ok) or IS the unlimited acquisition, a failing callback leaves the map + locked set untouched, and calls made inside callbacks refine the abstract machine as before. Co-simulation on single-threaded histories (family seq: every call runs to completion, all eight variants incl. borrowed/owned chosen per call) compares every return value with the model; shadow-map monitor.",
+ "C05": "Theorems: every guard operation returns and stores what the plain map would and touches nothing else; a lock call of any shape run to completion on a free key returns a guard with the map's value and a state that does not depend on the shape (variants interchangeable); a try on a locked/reserved key returns None and changes nothing a map + locked set can see; with soft limits (SeqLimit.v) a limited acquisition either suspends in its callback offering exactly what the map + locked set allows (offer_ok) or IS the unlimited acquisition, a failing callback leaves the map + locked set untouched, and calls made inside callbacks refine the abstract machine as before; and beyond the sequential case (Conc.v) every step of every interleaving acts on the plain map + locked set as a short sequence of the abstract machine's own calls returning exactly what was announced, so every concurrent history of the model is linearisable w.r.t. spec_call, and a try fails only on a locked or awaited key and succeeds on a key that is neither. Co-simulation on single-threaded histories (family seq: every call runs to completion, all eight variants incl. borrowed/owned chosen per call) compares every return value with the model; shadow-map monitor.",
  "C06": "Theorems: cancelling a pending async_lock (queued or handed) or dropping any pending per-entry future of a stream is always enabled, panics never, removes the call, reserves nothing, changes no value/guard and re-establishes the invariant; quiescent states contain exactly the valued keys. Co-simulation over exhaustive interleavings of cancel points x the other party's steps; monitors for leaked keys, panics and consume.",
  "C07": "Theorems: the callback is invoked only by a soft-limited call when len >= N, with a non-empty list of at most len-(N-1) distinct, previously unlocked, valued entries (exactly the first ones in iteration order), each now held by the offered guard and reported with its stored value; none without a limit or below it; when the call proceeds the container has at most max(N, non-evictable+1) entries. Co-simulation + callback-argument monitor. A round with a cooperative callback lowers the number of evictable entries and the loop runs at most that many rounds (theorems conditional on the round's label sequence being executed).",
  "C08": "PARTIAL (protocol level, like C03). Theorems: no reachable state is a deadlock among soft-limited and ordinary lockers (C08_no_deadlock_at_the_limit = drain); nothing evictable => proceeds without callback; the eviction step is always enabled; in the callback the call holds no handle and new (re-entrant) calls can start; a callback error ends the call with that error and leaves nothing. Harness: BeforeCallback hook asserts the global lock is not held; DFS over two soft-limited lockers.",
